@@ -141,9 +141,11 @@ def ref_matches(desc, tag_value):
             return False        # malformed: never matches
         return bool(op(desc["value"], int(tag_value, 10)))
     if kind == "bool":
-        if tag_value.lower() in _TRUE:          # the letter case of a boolean word does not matter (to_bool lower-cases)
-            return bool(op(desc["value"], True))
-        if tag_value.lower() in _FALSE:
+        # (a user-defined subclass of BoolValueObject may know more words: TRUE_STRINGS / FALSE_STRINGS are class attributes)
+        more = desc.get("words")
+        if tag_value.lower() in _TRUE or (more and tag_value.lower() == "enabled"):
+            return bool(op(desc["value"], True))    # the letter case of a boolean word does not matter (to_bool lower-cases)
+        if tag_value.lower() in _FALSE or (more and tag_value.lower() == "disabled"):
             return bool(op(desc["value"], False))
         return False
     raise ValueError(kind)
@@ -233,6 +235,11 @@ def build_value(desc, force_lazy=False, wrap_plain=False):
     raw = desc["value"]
     cur = _getter(desc.get("getter"), (lambda v=raw: v)) if (desc.get("lazy") or force_lazy) else raw
     cls = {"value": ValueObject, "number": NumberValueObject, "bool": BoolValueObject}[desc["kind"]]
+    if desc["kind"] == "bool" and desc.get("words"):
+        class SwitchValueObject(BoolValueObject):
+            TRUE_STRINGS = set(BoolValueObject.TRUE_STRINGS) | set(["enabled"])
+            FALSE_STRINGS = set(BoolValueObject.FALSE_STRINGS) | set(["disabled"])
+        cls = SwitchValueObject
     if desc.get("op") is None:
         return cls(cur)         # default comparison: equals
     return cls(cur, _behave_op(desc["op"]))
@@ -508,6 +515,8 @@ def classify(res, tags, values_list, cfg):
                     res.label("malformed-number")
                 if desc["kind"] == "bool" and v.lower() not in _TRUE and v.lower() not in _FALSE:
                     res.label("malformed-bool")
+                if desc["kind"] == "bool" and desc.get("words") and v.lower() in ("enabled", "disabled"):
+                    res.label("bool-subclass-with-more-words")
                 if desc.get("op") in ("contains", "prefix", "ieq"):
                     res.label("custom-compare")
                 if desc.get("op") in ("count", "regex", "bitand"):
@@ -1134,8 +1143,9 @@ def gen_value_desc(rnd):
                  rnd.choice(NUMBER_TAGS_BAD)]
         return {"kind": "number", "op": op, "value": cur, "lazy": lazy, "getter": getter}, hints
     op = rnd.choice([None, "eq", "ne"])
-    return ({"kind": "bool", "op": op, "value": rnd.random() < 0.5, "lazy": lazy, "getter": getter},
-            BOOL_TAGS + [rnd.choice(BOOL_TAGS_BAD)])
+    words = rnd.random() < 0.3
+    return ({"kind": "bool", "op": op, "value": rnd.random() < 0.5, "lazy": lazy, "getter": getter, "words": words},
+            BOOL_TAGS + [rnd.choice(BOOL_TAGS_BAD)] + (["enabled", "disabled", "Enabled"] * 2 if words else ["enabled"]))
 
 
 def _lookalikes(prefix, category, sep, value):
@@ -1237,12 +1247,13 @@ def gen_changing_case(rnd):
         else:
             nd = dict(d)
             nd["lazy"] = False
+            nd["words"] = False
             if d["kind"] == "number" and isinstance(d["value"], int):
                 nd["value"] = d["value"] + rnd.choice([-2, -1, 1, 2])
             elif d["kind"] == "bool":
                 nd["value"] = not d["value"]
             other[c] = nd
-    values = {c: (dict(d, lazy=False) if isinstance(d, dict) else d) for c, d in values.items()}
+    values = {c: (dict(d, lazy=False, words=False) if isinstance(d, dict) else d) for c, d in values.items()}
     case = {"kind": "changing", "tags": tags, "values": [values, other], "mode": rnd.choice(CHANGING_MODES),
             "order": rnd.choice([[0, 1, 0], [0, 1], [1, 0, 1], [0, 0, 1, 1, 0]]),
             "getter": rnd.choice(["lambda", "lambda", "partial", "object"])}
@@ -1328,7 +1339,7 @@ def required_labels(tier):
                "setup:matcher-created-before-the-values"]
             + ["setup:" + m for m in SETUP_MODES]
             + ["changing-lazy-values", "changing:verdict-flips", "changing:category-learned-after-the-first-decision",
-               "lazy-getter:partial", "lazy-getter:object"] + ["changing:" + m for m in CHANGING_MODES]
+               "lazy-getter:partial", "lazy-getter:object", "bool-subclass-with-more-words"] + ["changing:" + m for m in CHANGING_MODES]
             + ["malformed-with-unavailable-current-value", "overlapping-providers", "overlap:providers-disagree",
                "overlap:first-decision-before-the-value-exists", "overlap:atvp", "overlap:dict", "overlap:mixed"])
 
